@@ -677,6 +677,24 @@ func c06CLIUnit(t *testing.T, r *runner) {
 			}
 		}
 	}
+	// arguments made of k multi-byte characters, k = 1..300: byte length and character count drift apart, which is where
+	// truncation and column arithmetic on diagnostics goes wrong
+	for _, ch := range []string{"é", "€", "😀", "\xff"} {
+		stepK := 1
+		if !thorough() && ch != "é" {
+			stepK = 3
+		}
+		for k := 1; k <= 300; k += stepK {
+			arg := strings.Repeat(ch, k)
+			for _, args := range [][]string{{"npm", "compare", arg, "1.0.0"}, {"vers", "contains", "vers:npm/>=" + arg, "1.0.0"}, {"debian", "sort", "1.0", arg}} {
+				r.ev.Eval()
+				if bad := c06CLI(args); bad != "" {
+					failPlain(t, r, known.Case{Property: "C06", Check: "cli", Eco: "cli", Inputs: args, Detail: bad})
+				}
+			}
+		}
+		r.ev.NonTrivial("cli/multibyte-argument-length-sweep", func() any { return []string{ch, "k=1..300"} }, "cli-mb", ch)
+	}
 	rapid.Check(t, func(rt *rapid.T) {
 		n := rapid.IntRange(0, 5).Draw(rt, "argc")
 		var args []string
@@ -696,6 +714,8 @@ func c06CLIUnit(t *testing.T, r *runner) {
 				a = gen.Pick(rt, l, cmds...)
 			case validEco != "" && gen.Chance(rt, l+"valid", 1, 2):
 				a = gen.Version(rt, validEco, l+"v")
+			case gen.Chance(rt, l+"mb", 1, 12):
+				a = strings.Repeat(gen.Pick(rt, l+"mbc", "é", "€", "😀", "ß1", "٣"), rapid.IntRange(1, 400).Draw(rt, l+"mbn"))
 			default:
 				a = hostile(rt, l)
 			}
